@@ -21,19 +21,21 @@ static const double EPS = std::numeric_limits<double>::epsilon();
 static std::string q128str(Q x) { char b[96]; quadmath_snprintf(b, sizeof b, "%.24Qg", x); return b; }
 
 // ---- tolerances (Appendix B: documented figure x 2; otherwise calibrated = 4 x worst observed on the unchanged tree, >= 16 eps)
-static const double TOL_FWD = 16;        // Forward vs closed form, in eps * max(|P|, a)            (observed worst 1.3)
-static const double TOL_REV_POS = 16;    // |Forward_f128(Reverse(P)) - P| in eps * max(|P|, a)     (observed worst 2.1)
-static const double TOL_REV_H = 16;      // | |h| - nearest distance | in eps * max(|P|, a)         (observed worst 1.6)
-static const double TOL_LON = 16;        // lon vs atan2(Y, X), relative, eps                       (observed worst 1.5)
-static const double TOL_M_ORTHO = 16;    // |M^T M - I| in eps (no documented figure; observed 2.2 Geocentric, 4.0 LocalCartesian product)
-static const double TOL_M_ENU = 16;      // |M - ENU(returned lat, lon)| in eps                     (observed worst 1.7)
-static const double TOL_RT_NM = 14;      // documented 7 nm round trip, |h| <= 5000 km, WGS84  (x 2)
-static const double TOL_LOCAL = 16;      // local cartesian position / distances in eps * scale     (observed worst 2.6)
+// ("a" in the scales below is the larger semi-axis max(a, b))
+static const double TOL_FWD = 16;        // Forward vs closed form, in eps * scale                  (observed worst 1.1; floor 16)
+static const double TOL_REV_POS = 32;    // |Forward_f128(Reverse(P)) - P| in eps * scale           (observed worst 7.3, prolate f = -9 inside the evolute)
+static const double TOL_REV_H = 32;      // | |h| - nearest distance | in eps * scale               (observed worst 7.3)
+static const double TOL_LON = 16;        // lon vs atan2(Y, X), relative, eps                       (observed worst 1.0)
+static const double TOL_M_ORTHO = 16;    // |M^T M - I| in eps (no documented figure; observed 2.6 Geocentric, 4.0 LocalCartesian product)
+static const double TOL_M_ENU = 16;      // |M - ENU(returned lat, lon)| in eps                     (observed worst 2.0)
+static const double TOL_RT_NM = 14;      // documented 7 nm round trip, |h| <= 5000 km, WGS84  (x 2; observed 4.3 nm)
+static const double TOL_LOCAL = 32;      // local cartesian position / distances in eps * scale     (observed worst 5.8)
 
 struct EF { const char* name; double a, f; };
-static const EF ELL[6] = {
+static const EF ELL[8] = {
   {"WGS84", 6378137.0, 1 / 298.257223563}, {"sphere-1", 1.0, 0.0}, {"prolate-f=-1", 6.4e6, -1.0},
-  {"oblate-f=1/2", 6.4e6, 0.5}, {"oblate-f=.99", 1.0, 0.99}, {"oblate-f=1e-10", 6.4e6, 1e-10}};
+  {"oblate-f=1/2", 6.4e6, 0.5}, {"oblate-f=.99", 1.0, 0.99}, {"oblate-f=1e-10", 6.4e6, 1e-10},
+  {"prolate-f=-0.01", 6.4e6, -0.01}, {"prolate-f=-9", 6.4e6, -9.0}};
 
 struct Env {
   int idx; const EF* ef; Geocentric earth; cart::Ell E;
@@ -80,7 +82,7 @@ static const char* region_name(const Env& v, Q R, Q Z, Q P) {
 }
 static void check_reverse(Ctx& ctx, Env& v, double X, double Y, double Z, const char* origin) {
   Ctx::Case cs(ctx);
-  const double a = v.ef->a;
+  const double a = std::max(v.ef->a, v.ef->a * (1 - v.ef->f));     // size of the ellipsoid: the larger semi-axis
   std::string key = pkey(v, origin, X, Y, Z);
   Q R = sqrtq((Q)X * X + (Q)Y * Y), P = sqrtq((Q)X * X + (Q)Y * Y + (Q)Z * Z);
   const char* reg = region_name(v, R, fabsq((Q)Z), P);
@@ -157,7 +159,7 @@ static void check_reverse(Ctx& ctx, Env& v, double X, double Y, double Z, const 
 // ------------------------------------------------------------------ one geodetic point through Forward
 static void check_forward(Ctx& ctx, Env& v, double lat, double lon, double h, double& X, double& Y, double& Z) {
   Ctx::Case cs(ctx);
-  const double a = v.ef->a;
+  const double a = std::max(v.ef->a, v.ef->a * (1 - v.ef->f));     // size of the ellipsoid: the larger semi-axis
   std::string key = std::string("fwd ") + v.ef->name + " lat " + fx(lat) + " lon " + fx(lon) + " h " + fx(h);
   mc::Fields F0{{"ellipsoid", v.ef->name}, {"origin", "forward"}};
   auto FF = [&](const char* kind) { mc::Fields F = F0; F.push_back({"kind", kind}); return F; };
@@ -204,7 +206,7 @@ static void check_roundtrip(Ctx& ctx, Env& v, double lat, double lon, double h) 
 // ------------------------------------------------------------------ LocalCartesian at one origin
 struct Pt { double lat, lon, h; Q P[3]; double x[3]; };
 static void check_local(Ctx& ctx, Env& v, double lat0, double lon0, double h0, const std::vector<double>& lats, const std::vector<double>& lons, const std::vector<double>& hs) {
-  const double a = v.ef->a;
+  const double a = std::max(v.ef->a, v.ef->a * (1 - v.ef->f));     // size of the ellipsoid: the larger semi-axis
   std::string okey = std::string("local ") + v.ef->name + " origin (" + fmt(lat0) + "," + fmt(lon0) + "," + fmt(h0) + ")";
   mc::Fields F0{{"ellipsoid", v.ef->name}, {"origin", "local"}};
   auto FF = [&](const char* kind) { mc::Fields F = F0; F.push_back({"kind", kind}); return F; };
@@ -297,9 +299,9 @@ static void check_local(Ctx& ctx, Env& v, double lat0, double lon0, double h0, c
 int main(int argc, char** argv) {
   Ctx ctx(argc, argv);
   const bool T = ctx.thorough();
-  const int NE = T ? 6 : 3;
+  const int NE = T ? 8 : 6;
   std::vector<Env*> envs; for (int i = 0; i < NE; ++i) envs.push_back(new Env(i));
-  ctx.bound("ellipsoids", T ? "WGS84, (1,0), (6.4e6,-1), (6.4e6,1/2), (1,0.99), (6.4e6,1e-10)" : "WGS84, (1,0), (6.4e6,-1)");
+  ctx.bound("ellipsoids", T ? "(a,f) = WGS84, (1,0), (6.4e6,-1), (6.4e6,1/2), (1,0.99), (6.4e6,1e-10), (6.4e6,-0.01), (6.4e6,-9)" : "(a,f) = WGS84, (1,0), (6.4e6,-1), (6.4e6,1/2), (1,0.99), (6.4e6,1e-10)");
 
   // ================================================================= Forward lattice (+ Reverse of every image)
   {
@@ -334,12 +336,14 @@ int main(int argc, char** argv) {
   // ================================================================= all Cartesian triples
   {
     ctx.sub("reverse-lattice");
-    ctx.bound("reverse.lattice", T ? "X, Y, Z each in {0, +-1e-300, +-1e-20, +-1, +-a e^2/2, +-a e^2, +-a, +-1e7, +-1e20, +-1e300, +-1.7e308}: all 21^3 triples x 6 ellipsoids"
-                                   : "X, Y, Z each in {0, +-1e-300, +-1e-20, +-1, +-a e^2, +-a, +-1e7, +-1e20, +-1.7e308}: all 17^3 triples x 3 ellipsoids");
+    ctx.bound("reverse.lattice", T ? "X, Y, Z each in {0, +-1e-300, +-1e-160, +-1e-20, +-1e-5, +-1, +-a e^2/2, +-a e^2, +-b, +-a, +-1e7, +-1e20, +-0.9 and +-1.1 x (2a/eps), +-1e160, +-1e300, +-1.7e308}: all 33^3 triples x 8 ellipsoids (duplicates of an ellipsoid's alphabet replaced by neighbouring values)"
+                                   : "X, Y, Z each in {0, +-1e-300, +-1e-20, +-1, +-a e^2/2, +-a e^2, +-a, +-1e7, +-1e20, +-1e300, +-1.7e308}: all 21^3 triples x 6 ellipsoids");
     for (Env* v : envs) {
-      const double a = v->ef->a, ae2 = a * std::fabs(v->ef->f * (2 - v->ef->f));
-      std::vector<double> pos{1e-300, 1e-20, 1, ae2 == 0 ? 0.25 : ae2, a == 1 ? 0.999 : a, 1e7, 1e20, 1.7e308};
-      if (T) { pos.push_back(ae2 == 0 ? 0.125 : ae2 / 2); pos.push_back(1e300); }
+      const double a = v->ef->a, ae2 = a * std::fabs(v->ef->f * (2 - v->ef->f)), b = a * (1 - v->ef->f), far = 2 * a / EPS;
+      std::vector<double> pos;
+      auto add = [&](double x) { while (std::find(pos.begin(), pos.end(), x) != pos.end() || x == 0) x = x == 0 ? 0.25 : x * 0.75; pos.push_back(x); };
+      for (double x : {1e-300, 1e-20, 1.0, ae2 / 2, ae2, a, 1e7, 1e20, 1e300, 1.7e308}) add(x);          // quick: 10 magnitudes
+      if (T) for (double x : {1e-160, 1e-5, b, 0.9 * far, 1.1 * far, 1e160}) add(x);                      // thorough: 16 magnitudes
       std::vector<double> al{0.0}; for (double p : pos) { al.push_back(p); al.push_back(-p); }
       for (double X : al) for (double Y : al) {
         if (!ctx.take()) continue;
